@@ -78,37 +78,48 @@ def rangeOf (dtype : String) (bits : Nat) : Option (Int × Int) :=
 
 def prodNat (shape : List Int) : Int := shape.foldl (· * ·) 1
 
-def parseTensor (bufs : List (Option Data)) (t : TensorT) : Except String TensorD := do
-  let shape := t.shape.getD []
-  let name := t.name.getD []
-  let row ← match WriterTbl.dtypeMap.find? (·.1 == t.type) with
-    | some r => pure r
-    | none => throw "key"
-  let dtype := row.2.1
-  let bits := row.2.2.1
-  let size := row.2.2.2.2
-  let range := rangeOf dtype bits
-  let quant : Option QuantD := match t.quant with
-    | none => none
-    | some q =>
-      match q.scale, q.zeroPoint with
-      | none, none => none
-      | some sc, none => some { min := q.min, max := q.max, scale := some sc, zeroPoint := some (List.replicate sc.length 0),
-                                quantDim := some q.quantDim }
-      | sc, some zp => some { min := q.min, max := q.max, scale := sc, zeroPoint := some zp, quantDim := some q.quantDim }
-  let buf ← match bufs[t.buffer]? with
-    | some b => pure b
-    | none => throw "index"
+def dtypeRow (ty : Nat) : Except String (Nat × String × Nat × String × Nat) :=
+  match WriterTbl.dtypeMap.find? (·.1 == ty) with
+  | some r => pure r
+  | none => throw "key"
+
+/-- the quantisation the reader keeps: none unless a scale or a zero point is present; zero point 0 for a scale without
+    zero points -/
+def readQuant (q : Option QuantT) : Option QuantD :=
+  match q with
+  | none => none
+  | some q =>
+    match q.scale, q.zeroPoint with
+    | none, none => none
+    | some sc, none => some { min := q.min, max := q.max, scale := some sc, zeroPoint := some (List.replicate sc.length 0),
+                              quantDim := some q.quantDim }
+    | sc, some zp => some { min := q.min, max := q.max, scale := sc, zeroPoint := some zp, quantDim := some q.quantDim }
+
+def bufferOf (bufs : List (Option Data)) (i : Nat) : Except String (Option Data) :=
+  match bufs[i]? with
+  | some b => pure b
+  | none => throw "index"
+
+/-- `buf.view(np_dtype).reshape(shape)`: the data must have exactly the size of the tensor (not checked for strings);
+    `unmodelled`: a negative dimension next to data (NumPy would infer it) -/
+def checkData (dtype : String) (size : Nat) (shape : List Int) (buf : Option Data) : Except String Unit :=
   match buf with
-  | some d =>
-    if dtype != "string" then
-      if size == 0 then throw "key"
-      if shape.any (· < 0) then throw "value"
-      if (d.len : Int) ≠ prodNat shape * size then throw "value"
   | none => pure ()
-  pure { name := name, shape := shape, originalShape := shape, dtype := dtype, quant := quant, values := buf,
-         isVariable := t.isVariable, purpose := 0, memArea := 0, memType := 0, address := none, src := none,
-         range := if quant.isSome then range else none }
+  | some d =>
+    if dtype == "string" then pure ()
+    else if size == 0 then throw "key"
+    else if shape.any (· < 0) then throw "unmodelled"
+    else if (d.len : Int) ≠ prodNat shape * size then throw "value"
+    else pure ()
+
+def parseTensor (bufs : List (Option Data)) (t : TensorT) : Except String TensorD := do
+  let row ← dtypeRow t.type
+  let buf ← bufferOf bufs t.buffer
+  checkData row.2.1 row.2.2.2.2 (t.shape.getD []) buf
+  pure { name := t.name.getD [], shape := t.shape.getD [], originalShape := t.shape.getD [], dtype := row.2.1,
+         quant := readQuant t.quant, values := buf, isVariable := t.isVariable, purpose := 0, memArea := 0, memType := 0,
+         address := none, src := none,
+         range := if (readQuant t.quant).isSome then rangeOf row.2.1 row.2.2.1 else none }
 
 /-! ## operators -/
 
